@@ -20,7 +20,7 @@ DELTA = Fraction(1, 10 ** 6)
 def gen_tasks(tier, seed):
     rng = random.Random(seed + 16)
     tasks = []
-    graphs = [(n, es, False) for n, es in I.dag_graphs(tier, rng, quick_n=8, thorough_n5=40)] + [(n, es, True) for n, es in I.digraphs(tier, rng, quick_n=8, thorough_n=50)]
+    graphs = [(n, es, False) for n, es in I.dag_graphs(tier, rng, quick_n=8, thorough_n5=300)] + [(n, es, True) for n, es in I.digraphs(tier, rng, quick_n=8, thorough_n=200)]
     for name, es, cyc in graphs:
         G = nx.DiGraph(es)
         inner = [v for v in G.nodes() if G.in_degree(v) > 0 and G.out_degree(v) > 0]
@@ -30,9 +30,10 @@ def gen_tasks(tier, seed):
                 w[es[0]] = 2
             base = {"name": name, "edges": I.with_flow(es, w), "cyc": cyc, "starts": [], "ends": [], "ignored": [], "scaling": None, "node_mode": False, "lam": 0, "eps": None}
             tasks.append({**base, "wt": "int"})
-            estar = rng.choice(es)
-            tasks.append({**base, "wt": "int", "edges": [(u, v, 1 if (u, v) == estar else 10) for (u, v) in es]})
-            tasks.append({**base, "wt": "float", "edges": [(u, v, 10 if (u, v) == estar else 1) for (u, v) in es]})
+            # structured weights, every edge in turn (not sampled: a bottleneck must be hit whatever the seed)
+            for estar in (es if rep == 0 else []):
+                tasks.append({**base, "wt": "int", "edges": [(u, v, 1 if (u, v) == estar else 10) for (u, v) in es]})
+                tasks.append({**base, "wt": "float", "edges": [(u, v, 10 if (u, v) == estar else 1) for (u, v) in es]})
             # a node that is both an additional start and an additional end
             if inner:
                 vb = rng.choice(inner)
